@@ -22,6 +22,8 @@ import (
 )
 
 type cfg struct {
+	OnClone bool // the monitor is created on a filter clone (CloneWithFilter(Null)) of the root, not on the root
+	Reuse   bool // a second untyped monitor whose handler comes from the SAME builder with replaced callbacks
 	Upd2    bool // the stream is two updates of one object, then its delete (a lagging handler has both updates queued)
 	Foreign bool // the cache holds an object of another type at readiness (typed monitors must skip it, not give up)
 	Typed   bool
@@ -43,6 +45,12 @@ func (c cfg) name() string {
 	if c.Upd2 {
 		t += "+two-updates"
 	}
+	if c.OnClone {
+		t += "+on-filter-clone"
+	}
+	if c.Reuse {
+		t += "+builder-reused"
+	}
 	return fmt.Sprintf("c16/%s/K%d/close=%s@%d/%s%d", t, c.K, c.Closer, c.CloseAt, c.Mode, c.Bound)
 }
 
@@ -53,6 +61,7 @@ type inst struct {
 	doneSeen  bool
 	lateStart []string
 	lateRun   []string
+	other     []string // callbacks of the second monitor (builder reuse)
 	monErr    error
 	finished  bool
 	initial   []metav1.Object
@@ -119,12 +128,34 @@ func (in *inst) run() {
 			OnDelete(func(p *corev1.Pod) { in.cb("delete", hx.ObjString(p)) }).Create()
 		mon, err = pod.NewMonitor(pc, h)
 	} else {
-		h := kcache.BuildHandler().
+		var pub kcache.Publisher = in.root.Pub
+		if c.OnClone {
+			fc, cerr := in.root.Pub.CloneWithFilter(filter.Null())
+			if cerr != nil {
+				in.monErr = cerr
+				return
+			}
+			pub = fc
+		}
+		hb := kcache.BuildHandler().
 			OnInitialize(func(l []metav1.Object) { in.cb("init", hx.ListString(l)) }).
 			OnCreate(func(o metav1.Object) { in.cb("create", hx.ObjString(o)) }).
 			OnUpdate(func(o metav1.Object) { in.cb("update", hx.ObjString(o)) }).
-			OnDelete(func(o metav1.Object) { in.cb("delete", hx.ObjString(o)) }).Create()
-		mon, err = kcache.NewMonitor(in.root.Pub, h)
+			OnDelete(func(o metav1.Object) { in.cb("delete", hx.ObjString(o)) })
+		h := hb.Create()
+		if c.Reuse {
+			// the builder is used again for another handler: the first one keeps its own callbacks
+			rec := func(k string) func(metav1.Object) {
+				return func(o metav1.Object) { in.other = append(in.other, k+":"+hx.ObjString(o)) }
+			}
+			h2 := hb.OnInitialize(func(l []metav1.Object) { in.other = append(in.other, "init:"+hx.ListString(l)) }).
+				OnCreate(rec("create")).OnUpdate(rec("update")).OnDelete(rec("delete")).Create()
+			if _, err2 := kcache.NewMonitor(pub, h2); err2 != nil {
+				in.monErr = err2
+				return
+			}
+		}
+		mon, err = kcache.NewMonitor(pub, h)
 	}
 	in.monErr = err
 	if err != nil {
@@ -186,6 +217,18 @@ func (in *inst) check(r *vs.Result) []string {
 		} else if l != "exit "+strings.TrimPrefix(in.log[i-1], "enter ") {
 			msgs = append(msgs, fmt.Sprintf("callbacks overlap | log %v", in.log))
 			break
+		}
+	}
+	if c.Reuse {
+		// the second monitor's handler saw the whole stream too, each callback once
+		var oc []string
+		for _, x := range in.other {
+			if !strings.HasPrefix(x, "init:") {
+				oc = append(oc, x)
+			}
+		}
+		if strings.Join(oc, " ") != strings.Join(in.root.Published, " ") {
+			msgs = append(msgs, fmt.Sprintf("handlers built from one builder interfere | the second monitor's handler received %v, published %v; the first one's log %v", in.other, in.root.Published, in.log))
 		}
 	}
 	if len(in.lateRun) > 0 {
@@ -299,6 +342,12 @@ func Property() runner.Property {
 				out = append(out, scenario(cfg{Typed: typed, K: 3, CloseAt: -1, Closer: "none", Mode: "S2", Bound: 3}))
 				out = append(out, scenario(cfg{Typed: typed, Foreign: true, K: 2, CloseAt: -1, Closer: "none", Mode: "S2", Bound: 3}))
 				out = append(out, scenario(cfg{Typed: typed, Upd2: true, K: 3, CloseAt: -1, Closer: "none", Mode: "S2", Bound: 2}))
+				if !typed {
+					out = append(out, scenario(cfg{Reuse: true, K: 2, CloseAt: -1, Closer: "none", Mode: "S2", Bound: 2}))
+					// a monitor on a filter clone of a publisher that shuts down before it is ready: no callback at all
+					out = append(out, scenario(cfg{OnClone: true, K: 2, CloseAt: 99, Closer: "root", Mode: "S2", Bound: 3}))
+					out = append(out, scenario(cfg{OnClone: true, K: 2, CloseAt: -1, Closer: "none", Mode: "S2", Bound: 2}))
+				}
 			}
 			if tier == "thorough" {
 				for _, typed := range []bool{false, true} {
